@@ -188,12 +188,59 @@ func C08Scenarios() []sched.Scenario {
 			chain: base, commits: []blk{{hash: "B", prev: "A", sets: map[string]string{"k": "2"}}},
 			reads: [][2]string{{"k", "B"}, {"k", "B"}},
 			truth: map[string]string{"k@B": "2", "k@A": "1", "k@G": "1"}, mustHit: []string{"k@B"}},
+		{name: "S11-two-committers-key-unknown", doc: "G:j <- A; commit(B:k=2) || commit(B':k=3), the cache has no map for k yet || Get(k,B)",
+			chain:   []blk{{hash: "G", prev: "", sets: map[string]string{"j": "1"}}, {hash: "A", prev: "G", sets: map[string]string{"j": "x"}}},
+			commits: []blk{{hash: "B", prev: "A", sets: map[string]string{"k": "2"}}, {hash: "B'", prev: "A", sets: map[string]string{"k": "3"}}},
+			reads:   [][2]string{{"k", "B"}},
+			truth:   map[string]string{"k@B": "2", "k@B'": "3", "k@A": "", "k@G": ""}, mustHit: []string{"k@B", "k@B'"}},
+		{name: "S12-parent-and-child-commit-key-unknown", doc: "G:j; commit(A:k=5) || commit(B on A:k=6), no map for k yet || Get(k,B)",
+			chain:   []blk{{hash: "G", prev: "", sets: map[string]string{"j": "1"}}},
+			commits: []blk{{hash: "A", prev: "G", sets: map[string]string{"k": "5"}}, {hash: "B", prev: "A", sets: map[string]string{"k": "6"}}},
+			reads:   [][2]string{{"k", "B"}},
+			truth:   map[string]string{"k@B": "6", "k@A": "5", "k@G": ""}, mustHit: []string{"k@A", "k@B"}},
 	}
 	var out []sched.Scenario
 	for _, c := range cs {
 		out = append(out, c.scenario())
 	}
+	out = append(out, txnCommitVsSet())
 	return out
+}
+
+// txnCommitVsSet: one goroutine commits a transaction cache while another still writes through it: no
+// acknowledged write may get lost (it is either flushed by this commit or still there for the next one).
+func txnCommitVsSet() sched.Scenario {
+	return sched.Scenario{Name: "S13-txn-commit-vs-set", Doc: "TransactionCache.Commit || Set/Remove through the same transaction cache || Get",
+		Make: func() ([]func(), func() (string, string)) {
+			sc := statecache.NewStateCache()
+			bc := statecache.NewBlockCache(sc, statecache.Block{Hash: "B", PrevHash: "A"})
+			tc := statecache.NewTransactionCache(bc)
+			tc.Set("k0", statecache.String("v0"))
+			var seen string
+			bodies := []func(){
+				func() { tc.Commit() },
+				func() { tc.Set("k1", statecache.String("v1")); tc.Set("k2", statecache.String("v2")) },
+				func() { seen = show(tc.Get("k0")) },
+			}
+			judge := func() (string, string) {
+				fail := ""
+				if seen != "v0" {
+					fail = "Get(k0) through the transaction cache returned " + seen + " while k0=v0 was set before and never removed"
+				}
+				// a later, quiescent commit flushes whatever is still pending
+				tc.Commit()
+				var got []string
+				for _, k := range []string{"k0", "k1", "k2"} {
+					v := show(bc.Get(k))
+					got = append(got, k+"="+v)
+					if want := "v" + k[1:]; v != want && fail == "" {
+						fail = fmt.Sprintf("after the transaction cache was committed again, the block cache has %s=%s; the write %s=%s had returned before", k, v, k, want)
+					}
+				}
+				return "seen=" + seen + " " + strings.Join(got, " "), fail
+			}
+			return bodies, judge
+		}}
 }
 
 func schedPoint() { vsyncPoint() }
